@@ -680,11 +680,11 @@ func (t *gs) ret(ind int, x *ast.ReturnStmt) {
 func (t *gs) usesHeapResult() bool { return len(t.rets) == 1 && t.rets[0] == "ptr" }
 
 type gsFn struct {
-	key    string            // `Name` or `Recv.Name`
-	goSig  string            // the signature the translation assumes
-	params []gsField         // Lean parameters in order (receiver first)
-	rets   []string          // result kinds
-	muts   []string          // parameters the body assigns to
+	key    string    // `Name` or `Recv.Name`
+	goSig  string    // the signature the translation assumes
+	params []gsField // Lean parameters in order (receiver first)
+	rets   []string  // result kinds
+	muts   []string  // parameters the body assigns to
 }
 
 func gsDecls(file *ast.File) (map[string]*ast.FuncDecl, map[string]ast.Expr) {
